@@ -1,6 +1,7 @@
 import Driver.Drv.Ban
 import Driver.Drv.Dispatcher
 import Driver.Drv.Lru
+import Driver.Drv.Net
 import Driver.Drv.PushTx
 import Driver.Drv.Store
 import Driver.Drv.Subs
@@ -10,6 +11,7 @@ def drivers : List (String × CaseFn) := [
   ("ban", Driver.Drv.Ban.runCase),
   ("dispatcher", Driver.Drv.Dispatcher.runCase),
   ("lru", Driver.Drv.Lru.runCase),
+  ("net", Driver.Drv.Net.runCase),
   ("pushtx", Driver.Drv.PushTx.runCase),
   ("store", Driver.Drv.Store.runCase),
   ("subs", Driver.Drv.Subs.runCase)]
